@@ -106,7 +106,7 @@ class Run:
         verdicts = out.get("verdicts") or []
         for v in verdicts:
             at = v["at"]
-            idx = at.get("i", 0) - 1 if isinstance(at, dict) else int(at) - 1
+            idx = (at.get("i", at.get("tid", 0)) - 1) if isinstance(at, dict) else int(at) - 1
             item = items[idx] if 0 <= idx < len(items) else None
             for clause in sorted(v["failed"]):
                 sig = sig_fn(item, clause, at) if sig_fn else ""
